@@ -50,6 +50,294 @@ fn Result::map(_1: Result<T, E>, _2: F) -> Result<U, E> {
     }
 }
 
+fn Option::and_then(_1: Option<T>, _2: F) -> Option<U> {
+    bb0: {
+        _3 = discriminant(_1);
+        switchInt(move _3) -> [0: bb1, otherwise: bb2];
+    }
+    bb1: {
+        _0 = Option::<U>::None;
+        drop(_2) -> [return: bb3, unwind continue];
+    }
+    bb2: {
+        _4 = move ((_1 as Some).0: T);
+        _5 = (move _4,);
+        _0 = <F as FnOnce<(T,)>>::call_once(move _2, move _5) -> [return: bb3, unwind continue];
+    }
+    bb3: {
+        return;
+    }
+}
+
+fn Option::filter(_1: Option<T>, _2: F) -> Option<T> {
+    bb0: {
+        _3 = discriminant(_1);
+        switchInt(move _3) -> [0: bb1, otherwise: bb2];
+    }
+    bb1: {
+        _0 = Option::<T>::None;
+        drop(_2) -> [return: bb5, unwind continue];
+    }
+    bb2: {
+        _4 = &((_1 as Some).0: T);
+        _5 = (copy _4,);
+        _6 = <F as FnOnce<(&T,)>>::call_once(move _2, move _5) -> [return: bb3, unwind continue];
+    }
+    bb3: {
+        switchInt(move _6) -> [0: bb4, otherwise: bb6];
+    }
+    bb4: {
+        _0 = Option::<T>::None;
+        drop(_1) -> [return: bb5, unwind continue];
+    }
+    bb5: {
+        return;
+    }
+    bb6: {
+        _0 = move _1;
+        goto -> bb5;
+    }
+}
+
+fn Option::is_some_and(_1: Option<T>, _2: F) -> bool {
+    bb0: {
+        _3 = discriminant(_1);
+        switchInt(move _3) -> [0: bb1, otherwise: bb2];
+    }
+    bb1: {
+        _0 = const false;
+        drop(_2) -> [return: bb3, unwind continue];
+    }
+    bb2: {
+        _4 = move ((_1 as Some).0: T);
+        _5 = (move _4,);
+        _0 = <F as FnOnce<(T,)>>::call_once(move _2, move _5) -> [return: bb3, unwind continue];
+    }
+    bb3: {
+        return;
+    }
+}
+
+fn Option::map_or(_1: Option<T>, _2: U, _3: F) -> U {
+    bb0: {
+        _4 = discriminant(_1);
+        switchInt(move _4) -> [0: bb1, otherwise: bb2];
+    }
+    bb1: {
+        _0 = move _2;
+        drop(_3) -> [return: bb3, unwind continue];
+    }
+    bb2: {
+        _5 = move ((_1 as Some).0: T);
+        _6 = (move _5,);
+        _0 = <F as FnOnce<(T,)>>::call_once(move _3, move _6) -> [return: bb4, unwind continue];
+    }
+    bb3: {
+        return;
+    }
+    bb4: {
+        drop(_2) -> [return: bb3, unwind continue];
+    }
+}
+
+fn Option::unwrap_or(_1: Option<T>, _2: T) -> T {
+    bb0: {
+        _3 = discriminant(_1);
+        switchInt(move _3) -> [0: bb1, otherwise: bb2];
+    }
+    bb1: {
+        _0 = move _2;
+        goto -> bb3;
+    }
+    bb2: {
+        _0 = move ((_1 as Some).0: T);
+        drop(_2) -> [return: bb3, unwind continue];
+    }
+    bb3: {
+        return;
+    }
+}
+
+fn Option::unwrap_or_else(_1: Option<T>, _2: F) -> T {
+    bb0: {
+        _3 = discriminant(_1);
+        switchInt(move _3) -> [0: bb1, otherwise: bb2];
+    }
+    bb1: {
+        _4 = ();
+        _0 = <F as FnOnce<()>>::call_once(move _2, move _4) -> [return: bb3, unwind continue];
+    }
+    bb2: {
+        _0 = move ((_1 as Some).0: T);
+        drop(_2) -> [return: bb3, unwind continue];
+    }
+    bb3: {
+        return;
+    }
+}
+
+fn Option::or_else(_1: Option<T>, _2: F) -> Option<T> {
+    bb0: {
+        _3 = discriminant(_1);
+        switchInt(move _3) -> [0: bb1, otherwise: bb2];
+    }
+    bb1: {
+        _4 = ();
+        _0 = <F as FnOnce<()>>::call_once(move _2, move _4) -> [return: bb3, unwind continue];
+    }
+    bb2: {
+        _0 = move _1;
+        drop(_2) -> [return: bb3, unwind continue];
+    }
+    bb3: {
+        return;
+    }
+}
+
+fn Result::and_then(_1: Result<T, E>, _2: F) -> Result<U, E> {
+    bb0: {
+        _3 = discriminant(_1);
+        switchInt(move _3) -> [0: bb2, otherwise: bb1];
+    }
+    bb1: {
+        _7 = move ((_1 as Err).0: E);
+        _0 = Result::<U, E>::Err(move _7);
+        drop(_2) -> [return: bb3, unwind continue];
+    }
+    bb2: {
+        _4 = move ((_1 as Ok).0: T);
+        _5 = (move _4,);
+        _0 = <F as FnOnce<(T,)>>::call_once(move _2, move _5) -> [return: bb3, unwind continue];
+    }
+    bb3: {
+        return;
+    }
+}
+
+fn Result::map_err(_1: Result<T, E>, _2: F) -> Result<T, G> {
+    bb0: {
+        _3 = discriminant(_1);
+        switchInt(move _3) -> [0: bb1, otherwise: bb2];
+    }
+    bb1: {
+        _7 = move ((_1 as Ok).0: T);
+        _0 = Result::<T, G>::Ok(move _7);
+        drop(_2) -> [return: bb4, unwind continue];
+    }
+    bb2: {
+        _4 = move ((_1 as Err).0: E);
+        _5 = (move _4,);
+        _6 = <F as FnOnce<(E,)>>::call_once(move _2, move _5) -> [return: bb3, unwind continue];
+    }
+    bb3: {
+        _0 = Result::<T, G>::Err(move _6);
+        goto -> bb4;
+    }
+    bb4: {
+        return;
+    }
+}
+
+fn Result::unwrap_or(_1: Result<T, E>, _2: T) -> T {
+    bb0: {
+        _3 = discriminant(_1);
+        switchInt(move _3) -> [0: bb2, otherwise: bb1];
+    }
+    bb1: {
+        _0 = move _2;
+        drop(_1) -> [return: bb3, unwind continue];
+    }
+    bb2: {
+        _0 = move ((_1 as Ok).0: T);
+        drop(_2) -> [return: bb3, unwind continue];
+    }
+    bb3: {
+        return;
+    }
+}
+
+fn prelude::Iterator::any(_1: &mut I, _2: F) -> bool {
+    bb0: {
+        _4 = <I as Iterator>::next(copy _1) -> [return: bb1, unwind continue];
+    }
+    bb1: {
+        _5 = discriminant(_4);
+        switchInt(move _5) -> [0: bb3, otherwise: bb2];
+    }
+    bb2: {
+        _6 = move ((_4 as Some).0: T);
+        _7 = (move _6,);
+        _8 = &mut _2;
+        _9 = <F as FnMut<(T,)>>::call_mut(copy _8, move _7) -> [return: bb5, unwind continue];
+    }
+    bb3: {
+        _0 = const false;
+        drop(_2) -> [return: bb4, unwind continue];
+    }
+    bb4: {
+        return;
+    }
+    bb5: {
+        switchInt(move _9) -> [0: bb0, otherwise: bb6];
+    }
+    bb6: {
+        _0 = const true;
+        drop(_2) -> [return: bb4, unwind continue];
+    }
+}
+
+fn prelude::Iterator::all(_1: &mut I, _2: F) -> bool {
+    bb0: {
+        _4 = <I as Iterator>::next(copy _1) -> [return: bb1, unwind continue];
+    }
+    bb1: {
+        _5 = discriminant(_4);
+        switchInt(move _5) -> [0: bb3, otherwise: bb2];
+    }
+    bb2: {
+        _6 = move ((_4 as Some).0: T);
+        _7 = (move _6,);
+        _8 = &mut _2;
+        _9 = <F as FnMut<(T,)>>::call_mut(copy _8, move _7) -> [return: bb5, unwind continue];
+    }
+    bb3: {
+        _0 = const true;
+        drop(_2) -> [return: bb4, unwind continue];
+    }
+    bb4: {
+        return;
+    }
+    bb5: {
+        switchInt(move _9) -> [0: bb6, otherwise: bb0];
+    }
+    bb6: {
+        _0 = const false;
+        drop(_2) -> [return: bb4, unwind continue];
+    }
+}
+
+fn prelude::Iterator::count(_1: I) -> usize {
+    bb0: {
+        _0 = const 0_usize;
+        goto -> bb1;
+    }
+    bb1: {
+        _3 = &mut _1;
+        _4 = <I as Iterator>::next(copy _3) -> [return: bb2, unwind continue];
+    }
+    bb2: {
+        _5 = discriminant(_4);
+        switchInt(move _5) -> [0: bb4, otherwise: bb3];
+    }
+    bb3: {
+        _0 = Add(copy _0, const 1_usize);
+        goto -> bb1;
+    }
+    bb4: {
+        return;
+    }
+}
+
 fn mem::drop(_1: T) -> () {
     bb0: {
         drop(_1) -> [return: bb1, unwind continue];
@@ -197,6 +485,9 @@ fn prelude::oneshot_drop(_1: &mut OneEnd) -> () {
 
 PRELUDE_TRAIT = {
     ('Iterator', '*', 'for_each'): 'prelude::Iterator::for_each',
+    ('Iterator', '*', 'any'): 'prelude::Iterator::any',
+    ('Iterator', '*', 'all'): 'prelude::Iterator::all',
+    ('Iterator', '*', 'count'): 'prelude::Iterator::count',
     ('FutureExt', '*', 'poll_unpin'): 'prelude::poll_unpin',
     ('StreamExt', '*', 'poll_next_unpin'): 'prelude::poll_next_unpin',
     ('FutureExt', '*', 'boxed'): 'prelude::boxed',
